@@ -21,6 +21,11 @@ Oracles (none of them looks at the code under test):
 * ``paste_ok and read_shrink > 1``: ``roi_src == read_shrink * image(roi_dst)`` where ``image`` is
   the constructed whole-pixel overview-space map ``m*x + T`` - exactly, *without* clipping to the
   source image (the statement says "exactly ... scaled by that factor"; the code does not clip).
+* planner options: ``padding`` in {None,0,1,2} x ``align`` in {None,0,1,2,4} is a full dimension of the
+  ``paste-options`` slice.  The oracle is the same: whatever options the plan was requested with, a plan
+  that says ``paste_ok`` (and ``read_shrink == 1``) must be copyable (``src[roi_src]`` and ``dst[roi_dst]`` of
+  equal shape) and the copy must equal the nearest-neighbour warp; with ``read_shrink > 1`` the scaled-ROI
+  relation must hold.  A plan that says ``paste_ok=False`` claims nothing here.
 """
 from __future__ import annotations
 
@@ -75,6 +80,10 @@ RES_EDGE = (("t", 0.98), ("t", -0.98), ("t", 1.02), ("t", -1.02))  # thorough on
 #   outside: 1.5*k*stol          (outside both readings)
 DEVS_IN = ("0", "+i", "-i")
 DEVS_OUT = ("+o", "-o")
+
+PADDINGS = (None, 0, 1, 2)
+ALIGNS = (None, 0, 1, 2, 4)
+OPTS = tuple(itertools.product(PADDINGS, ALIGNS))  # (padding, align); None = argument not passed
 
 ROTS = ("rot0.5", "rot5", "rot-30", "rot90", "shear-x", "shear-y")
 
@@ -189,10 +198,18 @@ def build(case):
     src_g = GeoBox(SRC_SHAPE, S, _crs(crs_s))
     dst_g = GeoBox(dshape, S * A, _crs(crs_d))
     kw = {} if tol == 0 else {"ttol": ttol, "stol": stol}
+    optcls = None
+    if len(case) > 11:
+        pad, al = case[11]
+        if pad is not None:
+            kw["padding"] = pad
+        if al is not None:
+            kw["align"] = al
+        optcls = f"pad{pad}-align{al}"
     return dict(src_g=src_g, dst_g=dst_g, A=A, kw=kw, reason=reason, mx=mx, my=my, Tx=Tx, Ty=Ty,
                 k=kx if (kx is not None and kx == ky) else None, ttol=ttol, stol=stol, rot=rot,
                 exact=(res == (("t", 0.0), ("t", 0.0)) and sxs[1] == "0" and sys_[1] == "0"),
-                scale_dev=(sxs[1] != "0" or sys_[1] != "0"))
+                scale_dev=(sxs[1] != "0" or sys_[1] != "0"), optcls=optcls)
 
 
 def _sl(roi):
@@ -229,13 +246,20 @@ def run_case(case):
     paste = bool(rr.paste_ok)
     rs = rr.read_shrink
     place = _placement(rr.roi_dst, dshape)
+    optcls = b["optcls"]
+    osfx = "" if optcls is None else ":" + optcls
+    ogrp = ""
+    if optcls is not None:
+        pad, al = case[11]
+        ogrp = "|opt-" + ("+".join(n for n, v in (("padded", pad), ("aligned", al)) if v) or "tight")
     r = R(
-        outcome=f"{'paste' if paste else 'no-paste'}|{reason or 'eligible'}|shrink{min(int(rs), 4)}|{place}",
+        outcome=f"{'paste' if paste else 'no-paste'}|{reason or 'eligible'}|shrink{min(int(rs), 4)}|{place}{ogrp}",
         nontrivial=(reason is not None) or (paste and place != "disjoint"),
     )
     if not paste:
         if reason is None:
-            r.counts = {"eligible-but-not-reported": 1}
+            r.counts = {("eligible-but-not-reported" if ogrp in ("", "|opt-tight") else
+                         "paste-not-offered-under-padding-or-align"): 1}
         return r
 
     # ---- clause 3: reported only for eligible pairs -------------------------------------------
@@ -259,7 +283,8 @@ def run_case(case):
             block = block[:, ::-1]
         cls = "exact" if b["exact"] else ("scale-dev" if b["scale_dev"] else "residue")
         if block.shape != expect[rr.roi_dst].shape:
-            r.fail(f"paste:shape-mismatch:mirror-{mname}:{cls}",
+            r.fail(f"paste:shape-mismatch:mirror-{mname}:{cls}" if optcls is None else
+                   f"paste:roi-shape-mismatch:mirror-{mname}:{optcls}",
                    f"src[roi_src].shape={block.shape} != dst[roi_dst].shape={expect[rr.roi_dst].shape}: "
                    + describe(case, b, rr))
             return r
@@ -271,7 +296,7 @@ def run_case(case):
             np.array_equal(got, expect, equal_nan=True) if got.dtype.kind == "f" else np.array_equal(got, expect))
         if not same:
             nbad = int((~((got == expect) | ((got != got) & (expect != expect)))).sum()) if got.shape == expect.shape else -1
-            r.fail(f"paste!=warp:{dt}:mirror-{mname}:{cls}:{place}",
+            r.fail(f"paste!=warp:{dt}:mirror-{mname}:{cls}:{place}{osfx}",
                    f"{nbad} of {expect.size} pixels differ; paste={expect.tolist()} warp={got.tolist()}: "
                    + describe(case, b, rr))
         return r
@@ -285,7 +310,7 @@ def run_case(case):
     src_empty = sy1 <= sy0 or sx1 <= sx0
     if dst_empty or src_empty:
         if dst_empty != src_empty:
-            r.fail(f"shrink-roi:empty-vs-nonempty:mirror-{mname}",
+            r.fail(f"shrink-roi:empty-vs-nonempty:mirror-{mname}{osfx}",
                    "one of roi_src / roi_dst is empty, the other is not: " + describe(case, b, rr))
         return r
 
@@ -298,7 +323,7 @@ def run_case(case):
         shp_ok = (sy1 - sy0, sx1 - sx0) == (rs * (dy1 - dy0), rs * (dx1 - dx0))
         over = sy1 > SRC_SHAPE[0] or sx1 > SRC_SHAPE[1] or want[0][1] > SRC_SHAPE[0] or want[1][1] > SRC_SHAPE[1]
         r.fail(f"shrink-roi:{'position' if shp_ok else 'shape'}:mirror-{mname}:"
-               f"{'past-src-edge' if over else 'inside-src'}",
+               f"{'past-src-edge' if over else 'inside-src'}{osfx}",
                f"roi_src={got} but roi_dst scaled by read_shrink={rs} (whole-pixel map x_ov = m*x_dst + T, "
                f"T=({b['Tx']},{b['Ty']})) is {want}: " + describe(case, b, rr))
     elif sy1 > SRC_SHAPE[0] or sx1 > SRC_SHAPE[1]:
@@ -404,6 +429,23 @@ def space(tier):
           shift=itertools.product(range(-8, 9, 2) if not th else range(-8, 9), (-2, 0, 3)),
           res=((("t", 0.0), ("t", 0.0)), (("t", 0.9), ("t", -0.9)), (("t", -0.9), ("t", 0.9))), dtype=DTYPES),
     ]
+    # 5b. planner options padding x align as a full dimension (scale 1: image clause; scale 2: scaled-ROI clause)
+    S3 = (-2, 0, 3)
+    res_opt = [((("t", 0.0), ("t", 0.0)),), _pairs((("t", 0.9), ("t", -0.9)))]
+
+    def pl_opt(ds):
+        ny, nx = ds
+        return (tuple(itertools.product(range(-(nx + 1), SRC_SHAPE[1] + 2), S3)),
+                tuple(itertools.product(S3, range(-(ny + 1), SRC_SHAPE[0] + 2))))
+
+    gopt = ("D-utm10",) + (("R-deg0.1",) if th else ())
+    sp["paste-options"] = [
+        P(grid=gopt, dshape=(ds,), shift=pl, res=rs_, opts=OPTS)
+        for ds in ((5, 5), (8, 9)) + (((3, 10), (1, 1)) if th else ()) for pl in pl_opt(ds) for rs_ in res_opt
+    ] + [
+        P(grid=gopt, dshape=((5, 5),), scales=_same(2, ("0",)), shift=pl, res=rs_, opts=OPTS)
+        for pl in placements((5, 5), 2) for rs_ in res_opt
+    ]
     # 6. read_shrink > 1
     shrink_scales = {2: _same(2, DEVS_IN) + [((2, "+i"), (2, "-i"))], 3: _same(3, ("0", "+i") if not th else DEVS_IN),
                      4: _same(4, ("0",))}
@@ -422,7 +464,11 @@ def _gen(products):
                 s["grid"], s["crs"], s["dshape"], s["scales"], s["mirror"], s["rot"], s["shift"], s["res"],
                 s["tol"], s["dtype"],
             ):
-                yield (grid, crs, dshape, sxs, sys_, mirror, rot, shift, res, tol, dt)
+                if "opts" in s:
+                    for o in s["opts"]:
+                        yield (grid, crs, dshape, sxs, sys_, mirror, rot, shift, res, tol, dt, o)
+                else:
+                    yield (grid, crs, dshape, sxs, sys_, mirror, rot, shift, res, tol, dt)
 
     return gen
 
@@ -437,6 +483,9 @@ NOTES = {
                    "either side) x 5 y-shifts and the transposed set, x mirror x residue pairs; int16",
     "paste-image-tols": "scale 1 and 1+-0.5*stol under all 4 (ttol, stol) sets, south-up and realistic grid, reduced placements",
     "paste-dtypes": "all 8 dtypes (int8/bool detours) x placements x mirror x dst shapes",
+    "paste-options": "padding {None,0,1,2} x align {None,0,1,2,4} x (scale 1: every placement along x / along y x 3 cross "
+                     "shifts, dst smaller and larger than src; scale 2: overview placements) x mirror x residues within "
+                     "ttol: a plan that says paste_ok must be copyable and equal the NN warp / obey the scaled-ROI relation",
     "shrink": "integer scale 2,3,4 (read_shrink > 1), placements in overview pixels as in paste-image: "
               "roi_src == read_shrink * image(roi_dst)",
 }
@@ -460,7 +509,8 @@ def _count(products):
 def main(ctx):
     ctx.rule = (
         "complete Cartesian products over the construction parameters of the dst->src pixel transform (grid, dst shape, "
-        "per-axis scale class, mirror, rotation/shear, whole-pixel shift, per-axis residue, tolerance set, dtype); a case "
+        "per-axis scale class, mirror, rotation/shear, whole-pixel shift, per-axis residue, tolerance set, dtype, "
+        "planner options padding x align); a case "
         "is non-trivial when the pair is predicted not paste-able (eligibility decided) or a non-empty paste/shrink "
         "region was judged; distinct by (slice, case) hash"
     )
@@ -474,7 +524,7 @@ def main(ctx):
         "residue_alphabet": {"inside": RES_IN + RES_IN_MORE, "outside": RES_OUT, "edge(thorough)": RES_EDGE,
                              "unit": "('t', f) = f*ttol, ('a', v) = v px; destination (= overview) pixels"},
         "scale_deviation": "0, +-0.5*stol (inside), +-1.5*k*stol (outside); literals 1.5 0.5 2.5 0.25; anisotropic pairs",
-        "rotations": ROTS, "dtypes": DTYPES,
+        "rotations": ROTS, "dtypes": DTYPES, "padding": PADDINGS, "align": ALIGNS,
         "cases_per_slice": {k: _count(v) for k, v in sp.items()},
     }
     ctx.assumptions = [
@@ -492,6 +542,9 @@ def main(ctx):
         "paste is performed with plain numpy slice semantics on roi_src / roi_dst; mirroring is taken from the "
         "construction parameters, never from the result",
         "rotation alphabet stays away from 0 and 180 degrees (180 = mirror in x and y)",
+        "padding/align options: the clauses are conditional on what the returned plan says (paste_ok, read_shrink), "
+        "whatever options it was requested with; whether paste is offered at all under explicit padding/align is not "
+        "judged (the code documents that it is offered only for padding in (None,0) and align in (None,0))",
     ]
     sl = slices(ctx.tier)
     if ctx.only:
